@@ -266,6 +266,12 @@ def gen_block(rng: random.Random, fields: List[str], stats: Dict[str, int]) -> D
     return b
 
 
+def other_named(nm: str) -> List[Dict[str, Any]]:
+    """metadata of other kinds that has a name: a C++ function, a job-script block (each valid on every backend)"""
+    return [{"metadata_type": "add_cpp_function", "name": nm, "include_files": [], "arguments": ["a"], "code": ["auto result = a;"], "return_type": "double"},
+            {"metadata_type": "add_job_script", "name": nm, "script": ["# " + nm], "depends_on": []}]
+
+
 def gen_md(rng: random.Random, fields: List[str], stats: Dict[str, int]) -> List[Dict[str, Any]]:
     md: List[Dict[str, Any]] = []
     for _ in range(rng.choice([0, 1, 1, 2, 2, 3, 3, 4, 6])):
@@ -312,6 +318,11 @@ def gen_md(rng: random.Random, fields: List[str], stats: Dict[str, int]) -> List
         elif k < 0.50:
             md.append(dict(JOB_SCRIPT))
             stats["kind:other-metadata"] = stats.get("kind:other-metadata", 0) + 1
+        elif k < 0.58:  # other metadata carrying the NAME of a code block (before or after it): different kinds do not interact
+            named = [m["name"] for m in md if m.get("metadata_type") == "inject_code" and isinstance(m.get("name"), str)]
+            nm = rng.choice(named) if named and rng.random() < 0.7 else rng.choice(NAMES)
+            md.append(rng.choice(other_named(nm)))
+            stats["kind:other-metadata-same-name"] = stats.get("kind:other-metadata-same-name", 0) + 1
         else:
             md.append(gen_block(rng, fields, stats))
             stats["kind:block"] = stats.get("kind:block", 0) + 1
@@ -326,6 +337,10 @@ def directed_cases(fields: List[str]) -> List[List[Dict[str, Any]]]:
     full = {k: v for k, v in full.items() if k in ("metadata_type", "name") or k in fields}
     out = [[], [full], [full, dict(full)], [full, {**full, "body_includes": ["file5.h"]}], [{**full, "link_libraries_f": ["x"]}], [{"metadata_type": "inject_code"}],
            [{"metadata_type": "inject_code", "name": "only-name"}]]
+    for o in other_named("my_code_block"):
+        out.append([full, o])
+        out.append([o, full])
+        out.append([o, full, dict(o)])
     for f in fields:
         out.append([{"metadata_type": "inject_code", "name": "one", f: ["{{ x }}", "{% endfor %}", "{# #}", 'q"\\', "<&>", "\u00e9", "", "a\nb"]}])
         out.append([{"metadata_type": "inject_code", "name": "a", f: ["1", "2"]}, {"metadata_type": "inject_code", "name": "b", f: ["3"]},
